@@ -148,6 +148,18 @@ def run(ctx):
                     if outer in h.reach([d]):
                         okd = h.uncrossed_path([cc[0].block], [d], blocks=rel) is None
                 r3.check(okd, "release-before-guard-drop", "on the release path release() precedes the drop of the pooled connection", "the pooled connection is dropped (returned to the pool) before release() on the path back to the idle loop")
+            # ... and on the other exits that give a *clean* connection back: where checkin_cleanup completed and handle then returns, the pooled connection is
+            # handed on as soon as handle() has returned - the entry must be gone by then, not when the Client object is destroyed some time later (after
+            # client_entrypoint has reported the departure to a possibly busy accept loop). Exits that leave the connection un-cleaned are bb8's to discard (C02's gate).
+            hsw10 = switches(h)
+            ccs = h.calls("pgcat::server::Server::checkin_cleanup")
+            okC, _e, _ = discr_edges(h, r"ControlFlow<", "Continue", origin_pred=lambda o: o.kind == "call" and o.call.name == "pgcat::server::Server::checkin_cleanup", switches_cache=hsw10)
+            rets10 = [bb for bb, blk in enumerate(h.blocks) if blk["term"]["k"] == "return"]
+            errs10 = {c.block for c in h.calls("re:FromResidual<.*>>::from_residual$")}
+            wit = h.uncrossed_path([d for _, d in okC], rets10, blocks=rel) if okC else [0]
+            r3.check(bool(okC) and len(okC) >= len(ccs) and wit is None, "release-before-return-after-cleanup", "after a completed checkin_cleanup (%d sites) every way to a return of handle passes release()" % len(ccs),
+                     "handle can return after a completed checkin_cleanup without release(): the connection goes back to the pool clean - and with the departed client's key still naming it until the Client object is destroyed; "
+                     "a CancelRequest with that key (drivers send one right before closing the socket) cancels the statement of whoever holds the connection by then", "", wit and wit != [0] and h.describe_path(wit))
     dr = ctx.body(DROP, r3)
     if dr:
         r3.check(any(c.body is dr and c.name.endswith("::remove") for c in calls), "drop-removes", "Drop for Client removes the entry", "Drop for Client no longer removes the map entry")
